@@ -398,6 +398,7 @@ theorem release_ok (g g' : G) (n : Nat) (r : Rel) (h : NodesOK g) (hr : (Ext.rel
         exact (putNode_ok _ n nd' ev hbase hh (by show (getNode g.nodes n).isSome = true; rw [hgn]; rfl)).1
       cases r with
       | same => simp [Ext.fresh] at hr
+      | sames k => simp [Ext.fresh] at hr
       | out v =>
         simp only at hs
         cases hst : Node.step nd (.finish i (.outs [some { id := (clearObs g).next, pay := v }])) with
